@@ -10,6 +10,13 @@ package quic
 // the arithmetic kernels are additionally checked at full 64-bit width in shape I (VerifC20_window, VerifC20_bounds).
 //
 // The qs* helpers in this file are shared with the C32 and C19 harnesses.
+//
+// Sensitivity (sh mut.sh, all caught):
+//   stream.go appendOutFramesLocked: conn-level clamp `outmaxsent+outflow.avail()` -> `...+1`   caught by VerifC20_two
+//     (sum of highest offsets > MAX_DATA; also the code's own "BUG: streamOutSendData set ..." panic)
+//   stream.go flushLocked: `min(s.outwin, s.out.end)` -> `s.out.end`                             caught by VerifC20_send
+//   conn_flow.go handleStreamBytesReceived: `usedLimit > sentLimit` -> `> sentLimit+1`            caught by VerifC20_recv
+//   stream.go handleMaxStreamData: `maxStreamData <= s.outwin` -> `==` (window may shrink)        caught by VerifC20_window
 
 import (
 	"context"
@@ -431,7 +438,6 @@ func VerifC20_send() {
 	k := 4
 	outmaxbuf := int64(3)
 	if vfTier() > 0 {
-		k = 5
 		outmaxbuf = int64(vfLen("outmaxbuf", 2, 4))
 	}
 	win0 := int64(vfChoice("win0", 2) * 2)         // 0, 2
@@ -461,19 +467,23 @@ func VerifC20_send() {
 // retransmission, PTO probes and window growth interleave within the step bound.
 func VerifC20_resend() {
 	k := 4
-	if vfTier() > 0 {
-		k = 5
-	}
 	w := qsNewSender(4, 2, 3, 1)
 	w.prune = true
 	w.msd = []int64{3, 6}
 	w.md = []int64{4, 8}
+	if vfTier() > 0 {
+		w.msd = []int64{3, 4, 6}
+		w.md = []int64{4, 5, 8}
+	}
 	w.avails = []int{7, 20} // 7 = STREAM_DATA_BLOCKED (3) + STREAM header (3) + 1 byte
 	w.do(qsAlt{qsOpWrite, 0, 3}) // 2 bytes inside the stream window, 1 blocked
 	w.do(qsAlt{qsOpFlush, 0, 0})
 	w.do(qsAlt{qsOpEmit, 0, vfChoice("avail0", 2)}) // first packet carries 1 byte or both sendable bytes
 	vfAssert(w.gs[0].maxSent >= 1, "prologue put data on the wire")
 	mask := qsOpWrite | qsOpFlush | qsOpMaxStreamData | qsOpMaxData | qsOpEmit | qsOpEmitPTO | qsOpFate
+	if vfTier() > 0 {
+		mask |= qsOpClose
+	}
 	w.maxLen = 1
 	lost := false
 	w.onFate = func(pnum packetNumber, fate packetFate) {
@@ -502,15 +512,17 @@ func VerifC20_resend() {
 // VerifC20_two: two streams (one bidirectional, one unidirectional) share the connection-level limit.
 func VerifC20_two() {
 	k := 4
-	if vfTier() > 0 {
-		k = 5
-	}
 	maxdata0 := int64(vfChoice("maxdata0", 2) * 3) // 0, 3
 	w := qsNewSender(3, 2, maxdata0, 2)
 	w.prune = true
 	w.msd = []int64{4}
 	w.md = []int64{2, 5}
 	w.avails = []int{5, 20}
+	if vfTier() > 0 {
+		w.msd = []int64{3, 4}
+		w.md = []int64{2, 5, 8}
+		w.avails = []int{4, 5, 20}
+	}
 	mask := qsOpWrite | qsOpFlush | qsOpMaxStreamData | qsOpMaxData | qsOpEmit | qsOpFate
 	for step := 0; step < k; step++ {
 		w.step(mask)
@@ -555,6 +567,8 @@ type qsReceiver struct {
 	reset     bool  // RESET_STREAM processed
 	rcode     uint64
 	dead      bool // a connection error was raised: the history ends
+	// coverage flags (turned into vfReach markers by the harnesses)
+	sawFlow, sawFinal, sawStreamExt, sawConnExt bool
 }
 
 func qsNewReceiver(inmaxbuf, connbuf int64) *qsReceiver {
@@ -598,10 +612,10 @@ func (r *qsReceiver) data(off int64, b []byte, fin bool) {
 	switch want {
 	case int(errFlowControl):
 		vfAssert(got == want, "C20: peer data beyond an advertised limit is a FLOW_CONTROL_ERROR")
-		vfReach("flow-control-error")
+		r.sawFlow = true
 	case int(errFinalSize):
 		vfAssert(got == want, "C32: data contradicting the final size is a FINAL_SIZE_ERROR")
-		vfReach("final-size-error")
+		r.sawFinal = true
 	default:
 		vfAssert(got == 0, "peer data within the limits and consistent with the final size is accepted")
 	}
@@ -636,10 +650,10 @@ func (r *qsReceiver) rst(code uint64, finalSize int64) {
 	switch want {
 	case int(errFlowControl):
 		vfAssert(got == want, "C20: final size beyond an advertised limit is a FLOW_CONTROL_ERROR")
-		vfReach("flow-control-error")
+		r.sawFlow = true
 	case int(errFinalSize):
 		vfAssert(got == want, "C32: RESET_STREAM contradicting the final size or earlier data is a FINAL_SIZE_ERROR")
-		vfReach("final-size-error")
+		r.sawFinal = true
 	default:
 		vfAssert(got == 0, "consistent RESET_STREAM is accepted")
 	}
@@ -669,14 +683,14 @@ func (r *qsReceiver) emit(avail int, pto bool) []qsFrame {
 			r.lastMSD = f.val
 			if f.val > r.advStream {
 				r.advStream = f.val
-				vfReach("stream-window-extended")
+				r.sawStreamExt = true
 			}
 		case frameTypeMaxData:
 			vfAssert(f.val >= r.advConn, "C20: advertised MAX_DATA never decreases")
 			r.lastMD = f.val
 			if f.val > r.advConn {
 				r.advConn = f.val
-				vfReach("conn-window-extended")
+				r.sawConnExt = true
 			}
 		}
 	}
@@ -689,10 +703,11 @@ func (r *qsReceiver) emit(avail int, pto bool) []qsFrame {
 // reads and closes, the conn emits MAX_STREAM_DATA/MAX_DATA/STOP_SENDING into packets that are acked or lost.
 func VerifC20_recv() {
 	k := 4
+	maxbuf := 3
 	if vfTier() > 0 {
-		k = 5
+		maxbuf = 4
 	}
-	inmaxbuf := int64(vfLen("inmaxbuf", 2, 3))
+	inmaxbuf := int64(vfLen("inmaxbuf", 2, maxbuf))
 	connbuf := int64(2 + 2*vfChoice("connbuf", 2)) // 2 (below the stream window: the connection limit binds first), 4
 	r := qsNewReceiver(inmaxbuf, connbuf)
 	type alt struct{ kind, a, b int }
@@ -708,6 +723,9 @@ func VerifC20_recv() {
 		}
 		menu = append(menu, alt{1, int(r.hi), 0}, alt{1, int(r.hi), 1}) // FIN
 		menu = append(menu, alt{2, 1, 0}, alt{2, 2, 0})                 // Read
+		if vfTier() > 0 {
+			menu = append(menu, alt{2, 3, 0}, alt{4, 5, 0})
+		}
 		menu = append(menu, alt{3, 0, 0})                               // CloseRead
 		menu = append(menu, alt{4, 3, 0}, alt{4, 20, 0}, alt{4, 20, 1}) // emit
 		menu = append(menu, alt{5, int(r.hi), 0}, alt{5, int(r.hi) + 2, 0})
@@ -739,6 +757,15 @@ func VerifC20_recv() {
 			r.em.fate(r.c, m.a, fate)
 		}
 		qsDrain(r.c)
+	}
+	if r.sawFlow {
+		vfReach("flow-control-error")
+	}
+	if r.sawStreamExt {
+		vfReach("stream-window-extended")
+	}
+	if r.sawConnExt {
+		vfReach("conn-window-extended")
 	}
 	vfReach("end")
 }
